@@ -50,7 +50,7 @@ def cases(tier, seed):
             yield {"fam": name, "i": i}
     for i in range(1500 if tier == "quick" else 40000):
         yield {"fam": "rand", "i": i}
-    for i in range(6 if tier == "quick" else 40):
+    for i in range(24 if tier == "quick" else 96):
         yield {"fam": "many", "i": i}
     if tier == "thorough":
         yield {"fam": "huge", "i": 0}
@@ -67,7 +67,16 @@ def approx(ctx, pred, refa, backend, fam):
     from panoptica.utils.processing_pair import SemanticPair
 
     ctx.count("evaluations")
-    a = pan.ConnectedComponentsInstanceApproximator(cca_backend=pan.BACKEND[backend])
+    # half of the calls go through one approximator object per backend that lives as long as the shard and sees
+    # 1-D, 2-D and 3-D inputs in turn (an approximator is a reusable component of an evaluator)
+    shared = ctx.__dict__.setdefault("_shared_approx", {})
+    if ctx.cases_run % 2 == 0:
+        if backend not in shared:
+            shared[backend] = pan.ConnectedComponentsInstanceApproximator(cca_backend=pan.BACKEND[backend])
+        a = shared[backend]
+        ctx.count("f:C05.shared_approximator")
+    else:
+        a = pan.ConnectedComponentsInstanceApproximator(cca_backend=pan.BACKEND[backend])
     try:
         with pan.quiet():
             a.approximate_instances(SemanticPair(pred.copy(), refa.copy()))
@@ -115,10 +124,13 @@ def run(case, ctx):
         r = gen.rng(ctx.seed, "many", i)
         # checkerboards: more than 255 components for face connectivity (and isolated voxels for full connectivity)
         if i % 3 == 0:
-            n = int(r.integers(520, 700))
-            pred = np.zeros(n, dtype=np.uint8)
-            pred[::2] = 1
-            refa = np.roll(pred, 1)
+            # exactly 255 / 256 / 257 components (dtype switch of the result), labels at 255|256 and 65535|65536
+            k = [255, 256, 257, 300][(i // 3) % 4]
+            pred = np.zeros(2 * 300 + 2, dtype=np.uint32)
+            pred[1 : 2 * k : 2] = [255, 256, 65535, 65536][(i // 3) % 4]
+            refa = np.zeros_like(pred)
+            refa[1 : 2 * [256, 255, 2, 257][(i // 3) % 4] : 2] = 1
+            refa[-1] = [65536, 65535, 256, 255][(i // 3) % 4]
         elif i % 3 == 1:
             pred = np.zeros((36, 36), dtype=np.uint16)
             pred[::2, ::2] = 1
